@@ -43,7 +43,10 @@ type spinStart struct {
 
 func (s *spinStart) wait() {
 	s.ready.Add(1)
-	for !s.gate.Load() {
+	for i := 0; !s.gate.Load(); i++ {
+		if i > 2000 { // oversubscribed machine: do not starve the goroutine that has to arrive
+			runtime.Gosched()
+		}
 	}
 }
 
@@ -232,11 +235,17 @@ func runDuplicateOpenRace(c RaceCase) (*failure, int) {
 			cl.CloseByPeer()
 		}
 		// wait for the lifecycle goroutine to retire the id so that bridges do not pile up
-		for deadline := time.Now().Add(endBound); time.Now().Before(deadline); {
+		retired := false
+		for deadline := time.Now().Add(2 * endBound); time.Now().Before(deadline); {
 			if _, err := other.LookupWaitingTunnel(ctx, tid); err != nil {
+				retired = true
 				break
 			}
 			time.Sleep(time.Millisecond)
+		}
+		if !retired && owner >= 0 {
+			return &failure{"C09/race/duplicate-open/resolves-after-bridge-close/" + c.Backend,
+				fmt.Sprintf("round %d: the bridge of %s was closed and its transports dropped, %v later the id still resolves", r, tid, 2*endBound)}, both
 		}
 	}
 	return nil, both
@@ -263,8 +272,8 @@ func checkRace(t vkit.TB, c RaceCase) {
 
 // TestContention: every shard runs both races on both in-memory backends.
 func TestContention(t *testing.T) {
-	lookRounds := vkit.PerShard(vkit.Pick(48000, 480000))
-	dupRounds := vkit.PerShard(vkit.Pick(2400, 24000))
+	lookRounds := vkit.PerShard(vkit.Pick(24000, 480000))
+	dupRounds := vkit.PerShard(vkit.Pick(1600, 24000))
 	for _, be := range []string{"memory", "hybrid-memory"} {
 		for lookers := 1; lookers <= 3; lookers++ {
 			checkRace(t, RaceCase{Kind: "expired-lookup-vs-register", Backend: be, Lookers: lookers, Rounds: lookRounds / 6})
